@@ -261,7 +261,20 @@ mutual
     | .cons a b t => critWithin a && critWithin b && orsWithin t
 end
 
-/-- conn.go checkBufferedLiteral: strings that the server buffers are limited to 4096 bytes -/
+/-! the nesting depth of a criteria tree (1 = no NOT / OR) -/
+mutual
+  def depth : Crit → Nat
+    | .mk _ nots ors => 1 + max (depthNots nots) (depthOrs ors)
+  def depthNots : CritList → Nat
+    | .nil => 0
+    | .cons c t => max (depth c) (depthNots t)
+  def depthOrs : OrList → Nat
+    | .nil => 0
+    | .cons a b t => max (max (depth a) (depth b)) (depthOrs t)
+end
+
+/-- conn.go checkBufferedLiteral: strings that the server buffers are limited to 4096 bytes; decoder.go
+    maxListDepth: parenthesised lists nest fewer than 1000 deep -/
 def withinLimits : Cmd → Bool
   | .login u p => strOk u && strOk p
   | .select m _ => mboxOk m
@@ -276,7 +289,7 @@ def withinLimits : Cmd → Bool
   | .copy _ _ m => mboxOk m
   | .move _ _ m => mboxOk m
   | .fetch _ _ o => o.sections.all fun b => b.fields.all strOk && b.fieldsNot.all strOk
-  | .search _ c _ => critWithin c
+  | .search _ c _ => critWithin c && depth c < maxListDepth
   | _ => true
 
 def inDomain (cfg : Cfg) (c : Cmd) : Bool := expressible c && advertised cfg c && withinLimits c
